@@ -217,6 +217,9 @@ func c16Scenario() *Scenario {
 		gov2("gov(ent:signers=S1,S2;min=2)", model.EntParams, ent("S1,S2", 2, 100)),
 		gov2("gov(ent:signers=S2;min=1)", model.EntParams, ent("S2", 1, 100)),
 		gov2("gov(ent:limit=10)", model.EntParams, ent("S1", 1, 10)),
+		// decision time limits no duration type can hold: "never stale" must stay never
+		gov2("gov(ent:limit=10^10)", model.EntParams, ent("S1,S2", 2, 10_000_000_000)),
+		gov2("gov(ent:limit=2^64-1)", model.EntParams, ent("S1,S2", 2, ^uint64(0))),
 		gov2("gov(ent:min=2^63,INVALID)", model.EntParams, ent("S1", 1<<63, 100)),
 		gov2("gov(ent:min=2^64-1,INVALID)", model.EntParams, ent("S1", ^uint64(0), 100)),
 		gov2("gov(ent:signers=S1,xyz,INVALID)", model.EntParams, ent("S1,!xyz", 1, 100)),
